@@ -24,7 +24,9 @@ for seed in range(lo, hi + 1):
                 if ev['ok']:
                     upd('c08 res_units', ev['res_units'], tag); upd('c08 res/tol permille', ev['res_permille'], tag)
                     upd('c08 res/tol permille ' + ev['fam'], ev['res_permille'], tag)
-                    if ev['res_units'] > 1 or not ev['x_finite'] or ev['k'] > ev['budget']: fails.append(('solve', tag, ev['k'], ev['res_units']))
+                    upd('c08 res_units %s %s' % (ev['kind'], 'struct' if ev['fam'] == 'struct' else 'generic'), ev['res_units'], tag)
+                    guard = (2000 if ev['fam'] == 'struct' else 100) if ev['kind'] == 'qmr' else 1
+                    if ev['res_units'] > guard or not ev['x_finite'] or ev['k'] > ev['budget']: fails.append(('solve', tag, ev['k'], ev['res_units']))
                 if ev['budget'] == 0 and ev['xb_pre'] != ev['xb_post']: fails.append(('budget0', tag))
             elif op == 'prefix':
                 upd('c08 longest prefix k', ev['k'], tag)
